@@ -58,6 +58,11 @@ End Order.
 Section Collect.
   Context {A : Type} (sz : A -> Q).
 
+  Lemma line_outer_nil gap : line_outer sz gap [] == 0.
+  Proof. unfold line_outer, gaps_enum. cbn [sumQ]. ring. Qed.
+  Lemma line_outer_single gap c : line_outer sz gap [c] == sz c.
+  Proof. unfold line_outer, gaps_enum, nQ. cbn [sumQ length Z.of_nat]. change (inject_Z 0) with 0. ring. Qed.
+
   Lemma line_outer_snoc gap (line : list A) c :
     line_outer sz gap (line ++ [c]) == line_outer sz gap line + sz c + (match line with [] => 0 | _ => gap end).
   Proof.
@@ -95,8 +100,8 @@ Section Collect.
     - destruct line; constructor; [assumption | constructor].
     - destruct (Qlt_le_dec main _) as [Hov|Hok]; simpl.
       + destruct line as [|x t'].
-        * constructor; [intros H; simpl in H; lia|]. apply IH; [unfold line_outer; simpl; lra | intros H; simpl in H; lia].
-        * constructor; [assumption|]. apply IH; [unfold line_outer, nQ; simpl; lra | intros H; simpl in H; lia].
+        * constructor; [intros H; simpl in H; lia|]. apply IH; [rewrite line_outer_nil; lra | intros H; simpl in H; lia].
+        * constructor; [assumption|]. apply IH; [rewrite line_outer_single; lra | intros H; simpl in H; lia].
       + apply IH.
         * rewrite line_outer_snoc, <- Hls. reflexivity.
         * intros _. rewrite line_outer_snoc, <- Hls. assumption.
@@ -118,27 +123,27 @@ Section Collect.
                 (if Qlt_le_dec main (sz d) then [d] :: collect_css_aux sz main gap [] t
                  else collect_css_aux sz main gap [d] t)).
       { intros _. destruct (Qlt_le_dec main (sz d)).
-        - f_equal. apply IHA; [unfold line_outer; simpl; lra | now left].
-        - apply IHA; [unfold line_outer, nQ; simpl; lra | right; unfold line_outer, nQ; simpl; lra]. }
+        - f_equal. apply IHA; [rewrite line_outer_nil; lra | now left].
+        - apply IHA; [rewrite line_outer_single; lra | right; rewrite line_outer_single; lra]. }
       split.
       + intros line ls Hls Hline. simpl. destruct line as [|x t'].
-        * assert (E0 : ls == 0) by (rewrite Hls; unfold line_outer; simpl; lra).
+        * assert (E0 : ls == 0) by (rewrite Hls; apply line_outer_nil).
           destruct (Qlt_le_dec main (ls + sz d + 0)) as [H1|H1]; destruct (Qlt_le_dec main (sz d)) as [H2|H2]; simpl; try lra.
-          -- f_equal. apply IHA; [unfold line_outer; simpl; lra | now left].
-          -- apply IHA; [rewrite line_outer_snoc, <- Hls; simpl; lra|].
-             right. unfold line_outer, nQ; simpl. lra.
+          -- f_equal. apply IHA; [rewrite line_outer_nil; lra | now left].
+          -- apply IHA; [rewrite line_outer_single; lra|].
+             right. rewrite line_outer_single. lra.
         * assert (E1 : ls + sz d + gap == line_outer sz gap ((x :: t') ++ [d])) by (rewrite line_outer_snoc, <- Hls; reflexivity).
           destruct (Qlt_le_dec main (ls + sz d + gap)) as [H1|H1];
             destruct (Qlt_le_dec main (line_outer sz gap ((x :: t') ++ [d]))) as [H2|H2]; simpl; try lra.
           -- f_equal. destruct (Qlt_le_dec main (sz d)) as [H3|H3].
              ++ now apply IHB.
-             ++ apply IHA; [unfold line_outer, nQ; simpl; lra | right; unfold line_outer, nQ; simpl; lra].
+             ++ apply IHA; [rewrite line_outer_single; lra | right; rewrite line_outer_single; lra].
           -- apply IHA; [symmetry in E1; rewrite E1; reflexivity | right; assumption].
       + intros c Hc. simpl.
         destruct (Qlt_le_dec main (sz c + sz d + gap)) as [H1|H1]; [|lra]. simpl. f_equal.
         destruct (Qlt_le_dec main (sz d)) as [H3|H3].
         * now apply IHB.
-        * apply IHA; [unfold line_outer, nQ; simpl; lra | right; unfold line_outer, nQ; simpl; lra].
+        * apply IHA; [rewrite line_outer_single; lra | right; rewrite line_outer_single; lra].
   Qed.
 End Collect.
 
@@ -156,14 +161,14 @@ Proof.
   - apply sort_sorted.
   - intros k. apply sort_stable.
   - apply collect_aux_nonempty.
-  - intros ->. apply collect_aux_fits; [unfold line_outer; simpl; lra | intros H; simpl in H; lia].
+  - intros ->. apply collect_aux_fits; [rewrite line_outer_nil; lra | intros H; simpl in H; lia].
 Qed.
 
 Theorem collect_is_greedy {A} (sz : A -> Q) (main gap : Q) (l : list A) :
   (forall d, In d l -> 0 <= sz d + gap) -> collect sz true main gap l = collect_css sz true main gap l.
 Proof.
   intros H. unfold collect, collect_css. destruct (collect_greedy_aux sz main gap l H) as (HA & _).
-  apply HA; [unfold line_outer; simpl; lra | now left].
+  apply HA; [rewrite line_outer_nil; lra | now left].
 Qed.
 
 (* ================================================================= step 12 *)
@@ -175,8 +180,18 @@ Fixpoint chain (R : placed -> placed -> Prop) (l : list placed) : Prop :=
   | _ => True
   end.
 
-Definition last_edge (ps : list placed) : Q :=
-  match rev ps with [] => 0 | p :: _ => px p + pmw p end.
+Lemma chain_impl (R R' : placed -> placed -> Prop) l : (forall a b, R a b -> R' a b) -> chain R l -> chain R' l.
+Proof.
+  intros H. induction l as [|a t IH]; [trivial|]. destruct t as [|b t']; [trivial|].
+  intros (A & B). split; [now apply H | now apply IH].
+Qed.
+
+Fixpoint last_edge (ps : list placed) : Q :=
+  match ps with
+  | [] => 0
+  | [p] => px p + pmw p
+  | _ :: t => last_edge t
+  end.
 
 Lemma place_loop_spec gap sp line : forall first pos,
   let ps := place_loop gap sp first pos line in
@@ -190,23 +205,20 @@ Proof.
   - repeat split; intros; discriminate.
   - set (pos1 := if first then pos else pos + gap).
     set (mw := oz (jml x) + jw x + jpb x + oz (jmr x)).
-    destruct (IH false (pos1 + mw + sp)) as (I1 & I2 & I3 & I4 & I5). repeat split.
-    + simpl. now rewrite I1.
-    + simpl. now rewrite I2.
-    + simpl. rewrite I3. reflexivity.
-    + destruct t as [|y t']; [exact I|]. simpl in *. split; [|exact I4]. simpl. unfold pos1, mw. ring.
-    + eexists _, _. split; [reflexivity | simpl; reflexivity].
-    + intros x0 t0 E. injection E as <- <-. destruct t as [|y t'].
-      * unfold last_edge. simpl. unfold mwj, nQ. simpl. fold mw pos1. ring.
-      * destruct (I5 y t' eq_refl) as (_ & L). unfold last_edge in *. simpl rev in *.
-        assert (R : forall (a : placed) (l : list placed) p, rev l <> [] ->
-                      match rev l ++ [a] with [] => 0 | q :: _ => px q + pmw q end =
-                      match rev l with [] => 0 | q :: _ => px q + pmw q end).
-        { intros a l p Hn. destruct (rev l); [congruence | reflexivity]. }
-        simpl in L. rewrite R; [| exact (mkP 0 0 0 0) |].
-        -- simpl. rewrite L. simpl length. unfold nQ. rewrite Nat2Z.inj_succ. unfold Z.succ. rewrite inject_Z_plus.
-           change (inject_Z 1) with 1. unfold mwj at 2. fold mw. ring.
-        -- simpl. intros Hn. apply app_eq_nil in Hn. destruct Hn; discriminate.
+    destruct (IH false (pos1 + mw + sp)) as (I1 & I2 & I3 & I4 & I5).
+    split; [simpl; now rewrite I1|]. split; [simpl; now rewrite I2|]. split; [simpl; rewrite I3; reflexivity|].
+    split.
+    { destruct t as [|y t']; [exact I|]. simpl in *. split; [|exact I4]. simpl. unfold pos1, mw. ring. }
+    intros xx tt E. injection E as <- <-. split.
+    { eexists _, _. split; [reflexivity | simpl; reflexivity]. }
+    destruct t as [|y t'].
+    + simpl. unfold mwj, nQ. simpl. fold mw pos1. ring.
+    + destruct (I5 y t' eq_refl) as ((q & qs & Eq & _) & L).
+      change (place_loop gap sp first pos (x :: y :: t'))
+        with (mkP (jid x) pos1 (jw x) mw :: place_loop gap sp false (pos1 + mw + sp) (y :: t')).
+      rewrite Eq in *. change (last_edge (mkP (jid x) pos1 (jw x) mw :: q :: qs)) with (last_edge (q :: qs)).
+      rewrite L. simpl length. unfold nQ. rewrite Nat2Z.inj_succ. unfold Z.succ. rewrite inject_Z_plus.
+      change (inject_Z 1) with 1. cbn [sumQ]. change (mwj x) with mw. ring.
 Qed.
 
 Lemma sum_mwj_fill share line :
@@ -237,7 +249,7 @@ Proof.
       rewrite H. destruct (Q.max_spec f0 0) as [(A & ->)|(A & ->)]; destruct (Q.min_spec f0 0) as [(B & ->)|(B & ->)]; lra.
     + apply Q.le_min_r.
     + intros Hf. apply Q.min_r. assumption.
-  - repeat split; try reflexivity; [assumption|]. intros K'. apply Z.ltb_ge in K. lia.
+  - apply Z.ltb_ge in K. repeat split; try reflexivity; try assumption; intros; exfalso; lia.
 Qed.
 
 Definition trail (j : justify) (free : Q) (n : nat) : Q := free - lead j free n - (nQ n - 1) * between j free n.
@@ -255,7 +267,7 @@ Theorem justify_positions (j : justify) (origin W gap : Q) (line : list jitem) x
     sumQ pmw ps + gaps_len line gap + free == W /\
     ((0 < nautos line)%Z -> 0 <= jfree W gap line -> free == 0).
 Proof.
-  intros E ps n. unfold ps, justify_line.
+  intros E ps n. unfold ps, n, justify_line. clear ps n.
   destruct (margins_line (jfree W gap line) line) as (line1, free) eqn:M.
   destruct (margins_line_conserve W gap line line1 free M) as (L1 & L2 & L3 & L4 & L5).
   exists free, (fallback JStart free j). split; [split; reflexivity|].
@@ -271,9 +283,8 @@ Proof.
   - now rewrite P1.
   - now rewrite P2.
   - exact P6.
-  - clear - P4. revert P4. generalize (place_loop gap (between j' free (length line)) true (origin + lead j' free (length line)) line1).
-    induction l as [|a [|b l'] IH]; simpl; auto. intros (A & B). split; [rewrite A; ring | now apply IH].
-  - rewrite P7. unfold trail, n. rewrite Lt.
+  - revert P4. apply chain_impl. intros a b A. rewrite A. ring.
+  - rewrite P7. unfold trail. rewrite Lt.
     assert (En : nQ (length line) == nQ (length t) + 1).
     { rewrite E. simpl length. unfold nQ. rewrite Nat2Z.inj_succ. unfold Z.succ. rewrite inject_Z_plus. reflexivity. }
     rewrite En. unfold gaps_len in L4. rewrite En in L4. setoid_replace (nQ (length t) + 1 - 1) with (nQ (length t)) by ring.
@@ -303,9 +314,9 @@ Theorem justify_keywords (free : Q) (n : nat) : (0 < n)%nat ->
 Proof.
   intros Hn. pose proof (nQ_pos n Hn) as Hp. unfold trail, lead, between.
   repeat split; try ring; try (field; lra).
-  - intros H2. destruct (1 <? Z.of_nat n)%Z eqn:E; [|apply Z.ltb_ge in E; lia].
+  - destruct (1 <? Z.of_nat n)%Z eqn:E; [|apply Z.ltb_ge in E; lia].
     assert (1 < nQ n) by (unfold nQ; rewrite <- (Zlt_Qlt 1); lia). field. lra.
-  - intros H2. destruct (1 <? Z.of_nat n)%Z eqn:E; [|apply Z.ltb_ge in E; lia].
+  - destruct (1 <? Z.of_nat n)%Z eqn:E; [|apply Z.ltb_ge in E; lia].
     assert (1 < nQ n) by (unfold nQ; rewrite <- (Zlt_Qlt 1); lia). field. lra.
 Qed.
 
